@@ -540,6 +540,16 @@ def ribosome(strict, env="main"):
     return r
 
 
+def _translations(rib):
+    """translate() executions so far as the instance itself reports them through the public get_statistics();
+    None when that report is unavailable (the render is then counted once by the harness)."""
+    try:
+        n = rib.get_statistics()["translations_count"]
+    except Exception:  # noqa: BLE001
+        return None
+    return n if isinstance(n, int) and not isinstance(n, bool) else None
+
+
 def observe(tstr, ctx, strict=False, env="main", how="synthesize", count=False):
     """-> ('ok', sequence, warnings) | ('raise', ExcName, message)"""
     try:
@@ -554,7 +564,7 @@ def observe(tstr, ctx, strict=False, env="main", how="synthesize", count=False):
             sib.synthesize(tstr, **ctx)
         except Exception:  # noqa: BLE001
             pass
-    n0 = rib._translations_count
+    n0 = _translations(rib) if count else None
     try:
         if how in ("synthesize", "fresh", "isolated"):
             p = rib.synthesize(tstr, **ctx)
@@ -573,7 +583,8 @@ def observe(tstr, ctx, strict=False, env="main", how="synthesize", count=False):
         got = ("raise", type(e).__name__, str(e))
     if count:
         RENDERS[0] += 1
-        RENDERS[1] += rib._translations_count - n0
+        n1 = _translations(rib)
+        RENDERS[1] += n1 - n0 if n0 is not None and n1 is not None and n1 >= n0 else 1
     return got
 
 
@@ -1139,7 +1150,7 @@ def run(ctx):
         "rendered by the real Ribosome and compared with the reference (an api / isolation case = all its paths); "
         "traces_validated_against_impl = compared renders; transitions = "
         "translate() executions of the real Ribosome caused by the compared renders (top level + include expansions, read "
-        "from its own counter; attribution re-runs of single segments are not counted); non-trivial = output differs from the template "
+        "from its public get_statistics() report; attribution re-runs of single segments are not counted); non-trivial = output differs from the template "
         "text (something was expanded) or strict mode",
         exhaustive=True,
     )
